@@ -28,7 +28,9 @@ WindDown == (\E o \in Objs : Delete(o)) \/ Finalize
 \* the executor: one step in four runs on a helper thread that is created for it and exits right after (Life has no thread in its state:
 \* no object of the API is bound to the thread that created it - which is what Trace_Life then checks on the observations)
 Exec(s) == IF R(1..4) = 1 THEN "helper" ELSE "run"      \* (an argument, so that TLC does not evaluate it once and for all)
-GNext == (IF Busy THEN Pick ELSE WindDown) /\ hist' = Append(hist, last' @@ [th |-> Exec(steps)])
+\* the transport of an export or import: the std::iostream functions or the FILE* functions (the blob is the same bytes either way - Trace_Life compares them)
+Transport(s) == IF R(1..3) = 1 THEN "file" ELSE "stream"
+GNext == (IF Busy THEN Pick ELSE WindDown) /\ hist' = Append(hist, last' @@ [th |-> Exec(steps), tr |-> Transport(steps)])
 GSpec == GInit /\ [][GNext]_gvars
 Dump == Terminal => ndJsonSerialize(IOEnv.GEN_OUT \o ToString(TLCGet("stats").traces) \o ".ndjson", hist)
 =============================================================================
